@@ -17,6 +17,8 @@ func init() {
 		Thorough:   all("./..."),
 		Run: func(c *Ctx) {
 			c.ruleGenDetMarshal("R-ANY-DET-MARSHAL", []string{"encoding/protojson"}, map[string]string{}, 1)
+			c.ruleMapKeyParse("R-MAPKEY-PARSE")
+			c.ruleFloatExpCleanup("R-FLOAT-EXP-CLEANUP")
 			c.ruleWKTTable("R-WKT-TABLE")
 			c.ruleResolverProp("R-RESOLVER-PROP", []string{"encoding/protojson"}, 3)
 			c.ruleNameAccessorPair("R-NAME-ACCESSOR-PAIR", "encoding/protojson", "encoding/protojson.encoder.marshalMessage", 1)
